@@ -12,8 +12,13 @@ def sh(cmd, cwd=None, timeout=3600, env=None):
     return p.returncode, p.stdout + p.stderr
 
 
-# evidence level per property: "proof" once its Props module carries real theorems
-LEVELS = {}
+# evidence level per property = the category claimed in MANIFEST.json (single source: tools/claims.json)
+def _levels():
+    try:
+        return {k: v["category"] for k, v in json.load(open(os.path.join(VERIF, "tools", "claims.json"))).items()}
+    except Exception:
+        return {}
+LEVELS = _levels()
 
 
 class BuildError(Exception):
